@@ -210,14 +210,22 @@ def stepCheck (sc : Sc) (xp xs yp ys : Int) (clipsDefault uniq : Bool) (ref : Li
         -- the extra banded run of a `g` step against the model of `global_banded`
         match g.b.bind parseInt with
         | some b =>
-          if Model.bandedScore sc xp yp st.cur.labels st.cur.wes sp.query sp.bw ≠ b then st.tag "drift-banded-score"
-          else st.tag "banded-model"
+          let st := if Model.bandedScore sc xp yp st.cur.labels st.cur.wes sp.query sp.bw ≠ b then st.tag "drift-banded-score"
+            else st.tag "banded-model"
+          -- `model_banded_full_band_equals_global`: bandwidth ≥ |query| suffices, on any DAG (cross-check on the real code)
+          if clipsDefault && sp.bw ≥ sp.query.length then
+            if b ≠ s then st.tag "band-covers-query-differs" else st.tag "band-covers-query-equal"
+          else st
         | none => st
       else if sp.mode = "b" then
         let st := if Model.bandedScore sc xp yp st.cur.labels st.cur.wes sp.query sp.bw ≠ s then st.tag "drift-banded-score"
           else st.tag "banded-model"
-        if (Model.bandedTable sc xp yp st.cur.labels st.cur.wes sp.query sp.bw).ops st.cur.labels.length ≠ ops
-        then st.tag "drift-banded-ops" else st
+        let st := if (Model.bandedTable sc xp yp st.cur.labels st.cur.wes sp.query sp.bw).ops st.cur.labels.length ≠ ops
+          then st.tag "drift-banded-ops" else st
+        if clipsDefault && sp.bw ≥ sp.query.length then
+          if (Model.globalAlign sc st.cur.labels st.cur.wes sp.query).1 ≠ s then st.tag "band-covers-query-differs"
+          else st.tag "band-covers-query-equal"
+        else st
       else st
     -- the faithful model of `Poa::custom` (clip cells included), every mode that runs it
     let st :=
